@@ -335,8 +335,9 @@ int main(void) {
   scr->kbdAddEvent = kbd_hook;
   scr->permitFileTransfer = TRUE;
   scr->getFileTransferPermission = ft_perm;
-  snprintf(ftpath, sizeof ftpath, "/tmp/c12-ft-%d", (int)getpid());
-  { FILE *f = fopen(ftpath, "w"); if (f) { fputs("0123456789abcdef", f); fclose(f); } }
+  /* the file a FileTransferRequest asks for: name, size and time stamp go into the server's answer,
+     so it must be the same in every run (streams are compared across runs): the harness binary itself */
+  snprintf(ftpath, sizeof ftpath, "/proc/self/exe");
   run_ops();
   finish();
   _exit(0);
@@ -470,7 +471,6 @@ static void __attribute__((noinline)) finish(void) {
     }
     for (fd = 0; fd < MAXFD; fd++) if (fdconn[fd]) real_close(fd);
     memset(conns, 0, sizeof conns); pending = NULL;
-    unlink(ftpath);
     leaks = __lsan_do_recoverable_leak_check();
     printf("end io=%ld openleft=%d stray=%d leaks=%d kinds=%s\n", io_index, openleft, stray, leaks ? 1 : 0,
            iokinds[0] ? iokinds : "-");
